@@ -47,6 +47,8 @@ func runC13(c *an.Ctx) {
 		return
 	}
 
+	checkHashBoundPerAnswer(c, "C13.a", request)
+
 	// --- C13.a / C13.e on Get and GetByHeight
 	for _, fn := range []*ssa.Function{get, getBH} {
 		t, ff := c.T(fn), c.F(fn)
